@@ -98,3 +98,49 @@ Proof.
   repeat split; try lia.
   unfold dy_eqb, dy_align. rewrite Z.min_id, Z.sub_diag, Z.pow_0_r. lia.
 Qed.
+
+(* ---------- rounding depends only on the VALUE of a dyadic, not on how it is written ---------- *)
+Lemma round_dy_rep r m e j : 0 <= j -> round_dy r {| dm := m * 2^j; de := e - j |} = round_dy r {| dm := m; de := e |}.
+Proof.
+  intros Hj. assert (Pj: 0 < 2^j) by (apply pow2_pos; lia).
+  destruct (Z_le_gt_dec 0 (e - j)) as [H1|H1].
+  - rewrite !round_dy_int by lia. replace e with ((e - j) + j) at 2 by lia. rewrite pow2_split by lia. ring.
+  - destruct (Z_le_gt_dec 0 e) as [H2|H2].
+    + (* the new writing has a fraction field that is entirely zero *)
+      rewrite (round_dy_int r m e) by lia.
+      replace (e - j) with (- (j - e)) by lia. rewrite unfold_round by lia.
+      assert (Pd: 0 < 2^(j - e)) by (apply pow2_pos; lia).
+      assert (Em: m * 2^j = (m * 2^e) * 2^(j - e)) by (replace j with (e + (j - e)) at 1 by lia; rewrite pow2_split by lia; ring).
+      rewrite Em. set (M := m * 2^e). set (d := 2^(j - e)) in *.
+      destruct r.
+      * apply Z.quot_mul. lia.
+      * apply Z.quot_mul. lia.
+      * apply Z.div_mul. lia.
+      * replace (- (M * d)) with ((- M) * d) by ring. rewrite Z.div_mul by lia. lia.
+      * unfold rhe. fold d. rewrite Z.div_mul, Z.mod_mul by lia. replace (2 * 0 <? d) with true by lia. reflexivity.
+    + replace (e - j) with (- (- e + j)) by lia. replace e with (- - e) at 2 by lia. rewrite !unfold_round by lia.
+      rewrite pow2_split by lia. assert (Pk: 0 < 2^(- e)) by (apply pow2_pos; lia).
+      set (d := 2^(- e)) in *. set (c := 2^j) in *.
+      destruct r.
+      * apply Z.quot_mul_cancel_r; lia.
+      * apply Z.quot_mul_cancel_r; lia.
+      * apply Z.div_mul_cancel_r; lia.
+      * replace (- (m * c)) with ((- m) * c) by ring. rewrite Z.div_mul_cancel_r by lia. reflexivity.
+      * unfold rhe. replace (- e + j) with (- e + j) by lia. rewrite pow2_split by lia. fold d. fold c.
+        rewrite Z.div_mul_cancel_r by lia. rewrite Z.mul_mod_distr_r by lia.
+        assert (Hlt: (2 * (m mod d * c) <? d * c) = (2 * (m mod d) <? d)) by (destruct (2 * (m mod d) <? d) eqn:E; nia).
+        assert (Hgt: (d * c <? 2 * (m mod d * c)) = (d <? 2 * (m mod d))) by (destruct (d <? 2 * (m mod d)) eqn:E; nia).
+        rewrite Hlt, Hgt. reflexivity.
+Qed.
+
+Lemma round_dy_eqv r a b : dy_eqb a b = true -> round_dy r a = round_dy r b.
+Proof.
+  destruct a as [m1 e1], b as [m2 e2]. unfold dy_eqb, dy_align. cbn [dm de]. intros H.
+  destruct (Z_le_gt_dec e1 e2) as [Hle|Hgt].
+  - rewrite Z.min_l in H by lia. rewrite Z.sub_diag, Z.pow_0_r, Z.mul_1_r in H.
+    assert (E: m1 = m2 * 2^(e2 - e1)) by lia. rewrite E.
+    replace e1 with (e2 - (e2 - e1)) at 2 by lia. apply round_dy_rep. lia.
+  - rewrite Z.min_r in H by lia. rewrite Z.sub_diag, Z.pow_0_r, Z.mul_1_r in H.
+    assert (E: m2 = m1 * 2^(e1 - e2)) by lia. rewrite E.
+    replace e2 with (e1 - (e1 - e2)) at 2 by lia. symmetry. apply round_dy_rep. lia.
+Qed.
